@@ -196,6 +196,23 @@ class C09(Prop):
             if rec["result"] != "ok" and "WebSocketError" not in rec.get("mro", []):
                 return "send_raised_non_websocket_error", "%s: %s raised %s: %s" % (
                     what, rec["action"], rec["result"], rec.get("msg"))
+        # ... also a send made AFTER the event iterator has ended (a thread that has not heard of the failure yet)
+        ws = getattr(tr, "ws", None)
+        if ws is not None and tr.ended == "stop":
+            from lomond.errors import WebSocketError
+            for late in (lambda: ws.send_text("after the end"), lambda: ws.send_binary(b"after the end"),
+                         lambda: ws.send_ping(b"late")):
+                try:
+                    late()
+                except WebSocketError:
+                    continue
+                except simnet.HarnessSignal:
+                    break
+                except Exception as error:
+                    return "send_raised_non_websocket_error", "%s: a send after the iterator had ended raised %s: %s" % (
+                        what, type(error).__name__, error)
+                else:
+                    return "late_send_accepted", "%s: a send after the iterator had ended was accepted" % what
         return None
 
     def run_case(self, case):
